@@ -5,4 +5,4 @@
 d=$1; shift
 args=${*:-./...}
 export GOFLAGS=-mod=mod GOPROXY=off GOSUMDB=off GOTOOLCHAIN=local
-exec unshare -n sh -c "ip link set lo up && ip route add 224.0.0.0/4 dev lo; cd '$d' && go test -vet=off -count=1 -timeout 25m $args"
+exec unshare -n sh -c "ip link set lo up && ip route add 224.0.0.0/4 dev lo; cd '$d' && go test -vet=off -count=1 $args"
